@@ -223,6 +223,7 @@ static const char *kNames[] = {"", "a", "this-name-needs-heap-2", "ccc", "yet-an
 enum { NNames = 6 };
 static uint32_t name_index(const identifier *id) {
   if (!id->_len) return 0;
+  if (id->_len > id->_max && !id->_base) return UINT32_MAX - 1;  // state left behind by _identifier_fini / mpt_identifier_set(0,0) of a heap name
   for (uint32_t i = 1; i <= NNames; i++)
     if (mpt_identifier_compare(id, kNames[i], -1) == 0) return i;
   return UINT32_MAX;
@@ -239,7 +240,8 @@ struct IdentKind : Kind {
   bool read(const void *p, uint32_t &v, std::string &why) override {
     const identifier *id = (const identifier *)p;
     if (id->_max != sizeof(identifier) - 4) { why = "is not an initialised identifier (_max=" + std::to_string(id->_max) + ")"; return false; }
-    if ((v = name_index(id)) == UINT32_MAX) { why = "holds an unexpected name of length " + std::to_string(id->_len); return false; }
+    if ((v = name_index(id)) == UINT32_MAX - 1) { why = "holds an identifier that was already finalised (heap name released)"; return false; }
+    if (v == UINT32_MAX) { why = "holds an unexpected name of length " + std::to_string(id->_len); return false; }
     return true;
   }
 };
@@ -285,6 +287,7 @@ struct CfgItemKind : MetaUser {
     const identifier &id = it_ident(it);
     if (id._max != sizeof(identifier) - 4) { why = "is not an initialised config item (identifier _max=" + std::to_string(id._max) + ")"; return false; }
     uint32_t n = name_index(&id);
+    if (n == UINT32_MAX - 1) { why = "holds a config item that was already finalised (heap name released)"; return false; }
     if (n == UINT32_MAX) { why = "holds an unexpected name"; return false; }
     void *m = it_value(it);
     if (!n) {
@@ -360,6 +363,7 @@ struct Handle {
   Kind *k = 0;                    // element kind of the buffer (0: no buffer, or raw buffer)
   const type_traits *tr = 0;      // expected _content_traits
   std::vector<uint32_t> vals;     // value semantics model
+  bool relax = false;             // shared its buffer with the handle that was operated on: what it reads now is C04's business, only lifetimes are checked
   CBuf *b() { return cbuf(a); }
 };
 
@@ -400,10 +404,13 @@ struct Sim {
       Handle &x = h[i];
       CBuf *b = x.b();
       if (!b) {
-        VP_CHECK(c, x.vals.empty() || !strict, "handle-lost-buffer", "after %s: handle %d has no buffer but the model holds %zu elements", op, i, x.vals.size());
-        x.vals.clear(); x.k = 0; x.tr = 0;
+        VP_CHECK(c, x.vals.empty() || !strict || x.relax, "handle-lost-buffer", "after %s: handle %d has no buffer but the model holds %zu elements", op, i, x.vals.size());
+        x.vals.clear(); x.k = 0; x.tr = 0; x.relax = false;
         continue;
       }
+      bool cmp = strict && !x.relax;
+      x.relax = false;
+      if (!cmp) adopt(x);
       VP_CHECK(c, b->traits == x.tr, "content-traits", "after %s: handle %d: buffer has content traits %p, expected %p", op, i, (const void *)b->traits, (const void *)x.tr);
       VP_CHECK(c, b->used <= b->size, "used-beyond-size", "after %s: handle %d: used %zu > size %zu", op, i, b->used, b->size);
       int users = 0;
@@ -423,10 +430,10 @@ struct Sim {
           if (first) x.k->tally(slot(b, e, S));
         }
       } else {
-        VP_CHECK(c, b->used == 0 || !strict, "raw-buffer-content", "after %s: handle %d: raw buffer with %zu bytes", op, i, b->used);
+        VP_CHECK(c, b->used == 0 || !cmp, "raw-buffer-content", "after %s: handle %d: raw buffer with %zu bytes", op, i, b->used);
       }
       if (first) seen[nseen++] = b;
-      if (strict) {
+      if (cmp) {
         if (got != x.vals) {
           std::string g, w;
           for (uint32_t v : got) g += std::to_string(v) + " ";
@@ -455,7 +462,16 @@ struct Sim {
   }
 
   // ---------------------------------------------------------------- helpers
-  Handle &pick_handle() { return h[c.pick(3)]; }
+  Handle &pick_handle() { Handle &x = h[c.pick(3)]; if (x.b()) relax_sharers(x); return x; }
+  void relax_sharers(Handle &x) {
+    for (auto &y : h) if (&y != &x && y.b() && y.b() == x.b()) y.relax = true;
+  }
+  // after an injected constructor failure only the lifetime invariants are demanded: take kind and values from the buffer
+  void adopt(Handle &x) {
+    const type_traits *t = x.b()->traits;
+    x.tr = t;
+    x.k = !t ? 0 : (t == primary->traits || t == primary->alias) ? primary : (t == other->traits || t == other->alias) ? other : x.k;
+  }
   // draw a failing constructor call for the next library call
   void arm(Kind *k) {
     if (!k || !k->can_fail_init() || !c.chance(48)) return;
@@ -488,11 +504,17 @@ struct Sim {
     CBuf *n = b->vptr->detach(b, b->used);
     if (!n) return false;
     cbuf(x.a) = n;
-    if (f & BufferShared) { c.label("detach:shared-copy"); nontrivial = true; }
+    note_detach(x, b, f & BufferShared);
     return true;
   }
+  // call right after the library call, before the model is updated: a shared buffer that was replaced has been
+  // copied element by element (init(dst,src)); a unique one has been moved
   void note_detach(Handle &x, CBuf *before, bool was_shared) {
-    if (x.b() && x.b() != before && was_shared) { c.label("detach:shared-copy"); nontrivial = true; }
+    if (x.b() && x.b() != before && was_shared) {
+      c.label("detach:shared-copy");
+      nontrivial = true;
+      if (x.k) for (auto &v : x.vals) v = x.k->copy_of(v);
+    }
   }
 
   // ---------------------------------------------------------------- operations
@@ -558,6 +580,7 @@ struct Sim {
     arm(k);
     void *ret = mpt_array_set(x.a, tr, cnt * k->size, with_data ? src.data() : 0, off);
     disarm();
+    note_detach(x, before, was_shared);
     if (with_data) for (size_t i = 0; i < cnt; i++) k->drop(src.data() + i * k->size);
     c.logf("  -> %s", ret ? "ok" : "refused");
     obs.viol.raise(c, "set");
@@ -573,7 +596,6 @@ struct Sim {
       ++ops_ok;
       c.label("ok:set");
     }
-    note_detach(x, before, was_shared);
     sync("set");
   }
 
@@ -597,6 +619,7 @@ struct Sim {
     arm(k);
     uint8_t *ret = (uint8_t *)mpt_array_insert(x.a, pos * k->size, cnt * k->size);
     disarm();
+    note_detach(x, before, was_shared);
     c.logf("  -> %s", ret ? "ok" : "refused");
     obs.viol.raise(c, "insert");
     if (ret) {
@@ -615,7 +638,6 @@ struct Sim {
       ++ops_ok;
       c.label("ok:insert");
     }
-    note_detach(x, before, was_shared);
     sync("insert");
   }
 
@@ -670,6 +692,7 @@ struct Sim {
     arm(k);
     void *ret = mpt_array_slice(x.a, off * k->size, cnt * k->size);
     disarm();
+    note_detach(x, before, was_shared);
     c.logf("  -> %s", ret ? "ok" : "refused");
     obs.viol.raise(c, "slice");
     if (ret) {
@@ -678,7 +701,6 @@ struct Sim {
       ++ops_ok;
       c.label("ok:slice");
     }
-    note_detach(x, before, was_shared);
     sync("slice");
   }
 
@@ -718,6 +740,7 @@ struct Sim {
     arm(compatible ? k : 0);
     buffer *ret = mpt_array_reserve(x.a, len, tr);
     disarm();
+    if (compatible) note_detach(x, before, was_shared);
     c.logf("  -> %s", ret ? "ok" : "refused");
     obs.viol.raise(c, "reserve");
     if (ret) {
@@ -735,7 +758,6 @@ struct Sim {
       ++ops_ok;
       c.label("ok:reserve");
     }
-    note_detach(x, before, was_shared);
     sync("reserve");
   }
 
@@ -770,7 +792,7 @@ struct Sim {
       cbuf(x.a) = nb;
       VP_CHECK(c, nb->size >= len, "detach-result", "detach(%zu) returned a buffer of size %zu", len, nb->size);
       if (x.k && strict) expect_prefix(x, "detach", std::min(n, len / esz));
-      if (nb != b && was_shared) { c.label("detach:shared-copy"); nontrivial = true; }
+      note_detach(x, b, was_shared);
       if (nb != b && !was_shared) c.label("detach:moved");
       ++ops_ok;
       c.label("ok:detach");
@@ -819,14 +841,15 @@ struct Sim {
         break;
       }
       case 2: {
-XX, (int)(&x - h));
+        if (flags_of(x.b()) & (BufferShared | BufferImmutable)) return;
+        c.logf("refusal probe h%d: mpt_buffer_cut at a misaligned offset", (int)(&x - h));
         if (!n) return;
         ssize_t r = mpt_buffer_cut((buffer *)x.b(), 1, S);
         VP_CHECK(c, r < 0, "accepted-invalid", "mpt_buffer_cut accepted a misaligned offset");
         break;
       }
       case 3: {
-        if (flags_of(x.b()) & BufferShared) return;
+        if (flags_of(x.b()) & (BufferShared | BufferImmutable)) return;
         c.logf("refusal probe h%d: mpt_buffer_cut with a partial element length", (int)(&x - h));
         if (!n) return;
         ssize_t r = mpt_buffer_cut((buffer *)x.b(), 0, S - 1);
@@ -851,6 +874,7 @@ XX, (int)(&x - h));
   }
 
   void step() {
+    for (auto &x : h) x.relax = false;
     switch (c.weighted({7, 24, 12, 14, 6, 8, 3, 9, 10, 4, 3, 3})) {
       case 0: op_create(); break;
       case 1: op_set(); break;
